@@ -665,3 +665,135 @@ def linear_system_spec(rng, nonlinear=False, max_flat=9):
     if any(t == [] for t in types): feats.add("linsys:scalar_member")
     if len({tuple(t) for t in types}) > 1: feats.add("linsys:rectangular_blocks")
     return dict(nlabels=nlabels, elabels=elabels, start=0, rules=rules, weights=weights, features=sorted(feats), recursive=True)
+
+# ---- magnitudes: weights at the top and bottom of the floating-point range in terms that a zero annihilates ----
+MAG_E = 100                                  # unit exponent of the spec's extreme weights 2^(+-e), e in MAG_EXPS
+MAG_EXPS = [100, 110, 120]                   # float32 reading: 2^100 .. 2^120 (two of them overflow, two 2^-e underflow)
+
+def mag_exponent(v):
+    """e if the spec value v is an EXTREME weight 2^e (|e| >= MAG_E/2) of the magnitude stream, else None"""
+    if v == "inf" or v == 0: return None
+    v = Fraction(v)
+    n, d = v.numerator, v.denominator
+    if d == 1 and n > 1 and n & (n - 1) == 0 and n.bit_length() - 1 >= MAG_E // 2: return n.bit_length() - 1
+    if n == 1 and d > 1 and d & (d - 1) == 0 and d.bit_length() - 1 >= MAG_E // 2: return -(d.bit_length() - 1)
+    return None
+
+def _nested_idx(shape, f, prefix=()):
+    if not shape: return f(prefix)
+    return [_nested_idx(shape[1:], f, prefix + (i,)) for i in range(shape[0])]
+
+def magnitude_spec(rng, p_inf=0.03):
+    """Non-recursive grammars whose EXACT sum-product is moderate although partial products overflow / underflow.
+    Every node label has a set of HOT values (non-empty for label 0).  An entry of a terminal's weight tensor is
+    hot if one of its indices is hot.  Terminals are KILLERS (hot entries 0, the others moderate and mostly
+    non-zero) or EXTREME (hot entries drawn from 2^(+-e), e in MAG_EXPS -- finite, but two of them leave the
+    float range in either direction -- and occasionally 0 / a moderate value / literal inf; the others moderate).
+    In every rule every node is attached to a killer: a killer terminal or a nonterminal edge (whose value is 0 on
+    hot entries by induction: the node is external in the child's rules and attached to a killer there).  Hence
+    every term (assignment) with a hot value contains a zero factor and is worth exactly 0 by the definition
+    (0 x anything = 0; theorem C01_rule_val_annihilated_terms), and the other terms only contain moderate weights.
+    Rules have 2-4 extreme / nonterminal edges on few nodes (>= 3 factors on a node is the normal case) and the
+    edges are in RANDOM order, so the zero comes before, between or after the factors whose product leaves the
+    range."""
+    feats = ["magnitude"]
+    n_nl = rng.choice([1, 1, 2])
+    nlabels = [rng.choice([2, 2, 3]) for _ in range(n_nl)]
+    hot = []
+    for i, d in enumerate(nlabels):
+        k = rng.randint(1, d - 1) if (i == 0 or rng.random() < 0.6) else 0
+        hot.append(set(rng.sample(range(d), k)))
+    n_mid = rng.choice([0, 1, 1, 2])
+    elabels = [dict(term=False, type=[rng.randrange(n_nl) for _ in range(rng.choice([0, 0, 0, 1]))])]
+    for _ in range(n_mid):
+        elabels.append(dict(term=False, type=[rng.randrange(n_nl) for _ in range(rng.choice([1, 1, 2]))]))
+    n_nt = 1 + n_mid
+    killer = {}
+    for nl in range(n_nl):
+        killer[nl] = len(elabels); elabels.append(dict(term=True, type=[nl]))
+    kill2 = None
+    if rng.random() < 0.4:
+        kill2 = len(elabels); elabels.append(dict(term=True, type=[rng.randrange(n_nl) for _ in range(2)]))
+    killers = set(killer.values()) | ({kill2} if kill2 is not None else set())
+    extreme = []
+    for _ in range(rng.randint(2, 3)):
+        extreme.append(len(elabels)); elabels.append(dict(term=True, type=[0] + [rng.randrange(n_nl) for _ in range(rng.choice([0, 0, 1]))]))
+        if rng.random() < 0.5: elabels[-1]["type"].reverse()
+    def attach(nodes, el):
+        att = []
+        for nl in elabels[el]["type"]:
+            cands = [i for i, l in enumerate(nodes) if l == nl]
+            if not cands or (len(nodes) < 3 and rng.random() < 0.2):
+                nodes.append(nl); cands = [len(nodes) - 1]
+            unused = [i for i in cands if i not in att]
+            att.append(rng.choice(unused if unused and rng.random() < 0.85 else cands))
+        return att
+    rules = []
+    for x in range(n_nt):
+        for _ in range(1 if rng.random() < 0.75 else 2):
+            nodes = list(elabels[x]["type"]); ext = list(range(len(nodes)))
+            edges = []
+            lower = list(range(x + 1, n_nt))
+            for _ in range(rng.randint(2, 4)):
+                el = rng.choice(lower) if (lower and rng.random() < 0.3) else rng.choice(extreme)
+                edges.append((el, attach(nodes, el)))
+            if kill2 is not None and rng.random() < 0.5:
+                edges.append((kill2, attach(nodes, kill2)))
+            covered = {i for el, att in edges if (not elabels[el]["term"] or el == kill2) for i in att}
+            for i in range(len(nodes)):
+                if i not in covered: edges.append((killer[nodes[i]], [i]))
+            rng.shuffle(edges)
+            if any(len(set(att)) < len(att) for _, att in edges): feats.append("repeated_attachment")
+            rules.append(dict(lhs=x, nodes=nodes, edges=edges, ext=ext))
+    def is_hot(idx, el):
+        return any(i in hot[nl] for i, nl in zip(idx, elabels[el]["type"]))
+    def moderate(p_zero):
+        return Fraction(0) if rng.random() < p_zero else rng.choice(LAYER_GRID[:5])
+    def extreme_value():
+        u = rng.random()
+        if u < p_inf: return "inf"
+        if u < 0.50: return Fraction(2) ** rng.choice(MAG_EXPS)
+        if u < 0.78: return Fraction(1, 2 ** rng.choice(MAG_EXPS))
+        if u < 0.86: return Fraction(0)
+        return moderate(0)
+    weights = {}
+    for el, e in enumerate(elabels):
+        if not e["term"]: continue
+        shape = [nlabels[nl] for nl in e["type"]]
+        def entry(idx, el=el):
+            if is_hot(idx, el): return Fraction(0) if el in killers else extreme_value()
+            return moderate(0.08)
+        weights[el] = _nested_idx(shape, entry)
+    for r in rules:
+        # features: two factors of one rule with extreme entries of the same sign, and where the zeros stand
+        pos = {}
+        for k, (el, att) in enumerate(r["edges"]):
+            if el in extreme:
+                for v in flat(weights[el]):
+                    e = mag_exponent(v)
+                    if e is not None: pos.setdefault(e > 0, set()).add(k)
+        kz = [k for k, (el, _) in enumerate(r["edges"]) if el in killers or not elabels[el]["term"]]
+        for up, ks in pos.items():
+            ks = sorted(ks)
+            if len(ks) >= 2:
+                name = "overflow" if up else "underflow"
+                feats.append(name + "_pair")
+                if kz and max(kz) > ks[1]: feats.append(name + "_then_zero")
+                if kz and min(kz) < ks[0]: feats.append("zero_then_" + name)
+    if any(v == "inf" for w in weights.values() for v in flat(w)): feats.append("inf_weight")
+    return dict(nlabels=nlabels, elabels=elabels, start=0, rules=rules, weights=weights, hot=[sorted(h) for h in hot],
+                features=sorted(set(feats)), recursive=False)
+
+def magnitude_killed(spec):
+    """self-check of the generator's invariant: in every rule every node whose label has hot values is attached
+    to a killer terminal (all hot entries 0) or to a nonterminal edge"""
+    hot = [set(h) for h in spec["hot"]]
+    def is_killer(el):
+        ty = spec["elabels"][el]["type"]
+        shape = [spec["nlabels"][nl] for nl in ty]
+        return all(v == 0 for idx, v in zip(itertools.product(*[range(s) for s in shape]), flat(spec["weights"][el]))
+                   if any(i in hot[nl] for i, nl in zip(idx, ty)))
+    for r in spec["rules"]:
+        cov = {i for el, att in r["edges"] if (not spec["elabels"][el]["term"] or is_killer(el)) for i in att}
+        if any(hot[nl] and i not in cov for i, nl in enumerate(r["nodes"])): return False
+    return True
